@@ -182,16 +182,36 @@ def install(spec: Spec):
             notes='view: concatenation of the per-result event_children lists in handler order (loop of list.extend); assumed, not verified')
     P[('BaseEvent', 'event_children')] = 'BaseEvent.event_children'
 
-    spec.fn('BaseEvent.event_cancel_pending_child_processing', file=M, qual='BaseEvent.event_cancel_pending_child_processing', trusted=True,
+    TWO_STATE = [
+        ('only_pending_results_touched', "forall(lambda r: implies(old(r.status) != 'pending', r.status == old(r.status) and r.error is old(r.error) and r.completed_at is old(r.completed_at) "
+                                         "and r.started_at is old(r.started_at) and r.result is old(r.result)), 'EventResult')", ['C10', 'C08']),
+        ('never_creates_pending', "forall(lambda r: implies(r.status == 'pending', old(r.status) == 'pending'), 'EventResult')", ['C10']),
+        ('cancelled_become_errors', "forall(lambda r: implies(old(r.status) == 'pending' and r.status != 'pending', r.status == 'error' and r.error is not None and r.completed_at is not None), 'EventResult')", ['C10']),
+    ]
+    NO_PENDING = lambda ev: "forall(lambda k: implies(k in " + ev + ".event_results, " + ev + ".event_results[k].status != 'pending'), 'str')"
+    # relative to the state at entry of the inner loop: whatever was not pending then is untouched (so every fact about
+    # non-pending results established by the outer loop before it still holds)
+    STEP = [('inner_loop_touches_only_pending', "forall(lambda r: implies(loop_old(r.status) != 'pending', r.status == loop_old(r.status)), 'EventResult')", ['C10'])]
+    GRAND = lambda ev: "forall(lambda m: implies(0 <= m and m < len(" + ev + ".event_children), " + NO_PENDING(ev + ".event_children[m]") + "))"
+    spec.ghosts['cancel_walk_calls'] = parse_ty('int')    # recursive descents made by the cancellation walk of this activation (task-owned)
+
+    def walk_pre(ex, n):
+        from pyvc.values import mk_int as _mi
+        ex.ghost_set('cancel_walk_calls', _mi(ex.ghost('cancel_walk_calls').term + 1))
+
+    OUTER = [('children_done_so_far', "forall(lambda j: implies(0 <= j and j < loop_i0, " + NO_PENDING('loop_seq0[j]') + "))", ['C10']),
+             ('descended_into_every_child_so_far', 'cancel_walk_calls >= old(cancel_walk_calls) + loop_i0', ['C10'])]
+    spec.fn('BaseEvent.event_cancel_pending_child_processing', file=M, qual='BaseEvent.event_cancel_pending_child_processing',
             params={'self': 'BaseEvent', 'error': 'BaseException'}, returns='NoneType',
-            modifies=[('status', '*'), ('error', '*'), ('started_at', '*'), ('completed_at', '*'), ('_handler_completed_signal', '*'), ('ev_set', '*')],
-            ensures=[('only_pending_results_touched', "forall(lambda r: implies(old(r.status) != 'pending', r.status == old(r.status) and r.error is old(r.error) and r.completed_at is old(r.completed_at) "
-                                                      "and r.started_at is old(r.started_at)), 'EventResult')", ['C10', 'C08']),
-                     ('never_creates_pending', "forall(lambda r: implies(r.status == 'pending', old(r.status) == 'pending'), 'EventResult')", ['C10']),
-                     ('cancelled_become_errors', "forall(lambda r: implies(old(r.status) == 'pending' and r.status != 'pending', r.status == 'error' and r.error is not None and r.completed_at is not None), 'EventResult')", ['C10']),
-                     ('no_pending_left_in_children', "forall(lambda i, k: implies(0 <= i and i < len(self.event_children) and k in self.event_children[i].event_results, "
-                                                     "self.event_children[i].event_results[k].status != 'pending'), 'int', 'str')", ['C10'])],
-            notes='recursive walk over event_children calling EventResult.update(error=...) on pending results; contract assumed here (body: two nested loops + recursion)')
+            requires=[('in_loop', 'loop_running()', [])],
+            modifies=[('status', '*'), ('error', '*'), ('result', '*'), ('started_at', '*'), ('completed_at', '*'), ('_handler_completed_signal', '*'), ('ev_set', '*')],
+            ghost_modifies=['cancel_walk_calls'],
+            callsites={'child_event.event_cancel_pending_child_processing': {'pre': walk_pre, 'ghost_writes': ['cancel_walk_calls']}},
+            loops={0: {'inv': TWO_STATE + OUTER},
+                   1: {'inv': TWO_STATE + STEP + [('results_done_so_far', "forall(lambda t: implies(0 <= t and t < loop_i1, loop_seq1[t].status != 'pending'))", ['C10']),
+                                                  ('descended_into_every_child_so_far', 'cancel_walk_calls >= old(cancel_walk_calls) + loop_i0', ['C10'])]}},
+            ensures=TWO_STATE + [('no_pending_left_in_children', "forall(lambda i: implies(0 <= i and i < len(self.event_children), " + NO_PENDING('self.event_children[i]') + "))", ['C10']),
+                                 ('walk_descends_into_every_child', 'cancel_walk_calls >= old(cancel_walk_calls) + len(self.event_children)', ['C10'])])
     spec.methods[('BaseEvent', 'event_cancel_pending_child_processing')] = 'BaseEvent.event_cancel_pending_child_processing'
 
     # ------------------------------------------------------------------ completion (C03 C08)
